@@ -922,6 +922,10 @@ func (vc *VC) evalCall(x *SCall, env *Env) TV {
 		}
 		ty := vc.parseSpecType(tn, env.pkg)
 		return TV{T: Eq(App(SInt, "ityp", v.T), IntLit(int64(vc.typeID(ty.Go)))), Ty: boolTy}
+	case "sep":
+		// sep(p, q): p and q point into different heap objects
+		a, b := vc.evalSpec(x.Args[0], env), vc.evalSpec(x.Args[1], env)
+		return TV{T: Not(Eq(App(SInt, "root", vc.refOf(a)), App(SInt, "root", vc.refOf(b)))), Ty: boolTy}
 	case "isnil":
 		v := vc.evalSpec(x.Args[0], env)
 		return TV{T: Eq(v.T, vc.zero(v.Ty.Go)), Ty: boolTy}
